@@ -29,14 +29,30 @@ CWS = r"^jsonrpsee_server::transport::http::call_with_service::\{closure#0\}$"
 RB = r"^jsonrpsee_core::http_helpers::read_body::\{closure#0\}$"
 
 
+def _work_sites(F, b, pat, depth=2):
+    """calls in `b` that are - or, through a helper of transport::http that `b` calls, lead to - a call matching `pat`"""
+    out = list(b.calls_to(pat))
+    if depth <= 0:
+        return out
+    for c in b.calls:
+        nm = c.name() or ""
+        if not nm.startswith("jsonrpsee_server::transport::http::") or re.search(pat, nm) or re.search(r"\{closure#\d+\}$", nm):
+            continue
+        for tgt in (F.bodies.get(nm), F.bodies.get(nm + "::{closure#0}")):
+            if tgt is not None and tgt is not b and _work_sites(F, tgt, pat, depth - 1):
+                out.append(c)
+                break
+    return out
+
+
 def r1_gate(ctx):
     F, R = ctx.F, ctx.R
     b = F.one(CWS)
     R.fn(b)
     m = b.calls_to(r"hyper::Request::<.*>::method$|http::Request::<.*>::method$")
     cj = b.calls_to(r"transport::http::content_type_is_json$")
-    rb = b.calls_to(r"http_helpers::read_body$")
-    hr = b.calls_to(r"server::handle_rpc_call$")
+    rb = _work_sites(F, b, r"http_helpers::read_body$")
+    hr = _work_sites(F, b, r"server::handle_rpc_call$")
     R.check(len(m) == 1 and len(cj) == 1 and len(rb) == 1 and len(hr) == 1, "C19.R1", "shape", "method match, content-type test, one body read, one dispatch", "call_with_service changed: method=%d is_json=%d read_body=%d dispatch=%d" % (len(m), len(cj), len(rb), len(hr)), "%s:%d" % (b.file, b.lo))
     if not (m and cj and rb and hr):
         return
